@@ -300,7 +300,7 @@ Lemma insert_trees2_In g pb reach maxn t1 t2 into rs t :
   insert_trees g pb reach maxn [t1; t2] into = Ok rs -> In t rs ->
   exists c rs', insert_items g pb reach c [into] = Ok rs' /\ In t rs' /\
     ((exists p1, c = [(t1, p1)]) \/
-     (exists p2, c = [(t2, p2)]) \/
+     (exists p2, c = [(t2, p2)] /\ pips reach into t1 = []) \/
      (exists p1 p2, c = [(t1, p1); (t2, p2)] /\ In p2 (pips reach into t2) /\ nested p1 p2 = false)).
 Proof.
   unfold insert_trees. intros H Hin.
@@ -312,7 +312,7 @@ Proof.
   destruct P1 as [|a1 P1], P2 as [|a2 P2]; cbn [filter snd fst map] in Hps, Hok |- *.
   - inversion Hps; subst. simpl in Hok. discriminate.
   - inversion Hps as [|p2 ? ? ? Hp2 Hps']; subst. inversion Hps'; subst.
-    right. left. exists p2. reflexivity.
+    right. left. exists p2. split; reflexivity.
   - inversion Hps as [|p1 ? ? ? Hp1 Hps']; subst. inversion Hps'; subst.
     left. exists p1. reflexivity.
   - inversion Hps as [|p1 ? ? ? Hp1 Hps']; subst. inversion Hps' as [|p2 ? ? ? Hp2 Hps'']; subst.
@@ -376,7 +376,7 @@ Proof.
     { eapply (insert_items_nodesin (fun i _ => P i)); [intro; exact HP0 | left; auto | exact Hitems | | exact Hrun].
       constructor; [|constructor]. eapply (nodesin_path_to_tree (fun i _ => P i)); [intro; exact HP0 | eassumption | eassumption]. }
     rewrite Forall_forall in HF. apply HF. assumption. }
-  destruct Hcase as [(p1 & ->)|[(p2 & ->)|(p1 & p2 & -> & Hp2 & Hnest)]].
+  destruct Hcase as [(p1 & ->)|[(p2 & -> & _)|(p1 & p2 & -> & Hp2 & Hnest)]].
   - (* only cur was inserted: the id of ins cannot be in t *)
     exfalso. unfold contains in Hcont. apply has_id_spec in Hcont as (q & m & Hq & Em).
     assert (Hnit : nodesin (fun i _ => i = 0%N \/ In i (ids cur)) it).
